@@ -42,15 +42,15 @@ CLAIMED["C17"] = dict(cat="exploration",
    note="census written from the property statement, not from normalize.go; bit width and parameter constraints have no column in the schema and are only counted",
    technique="property-based testing: independent census vs. relational image (multiset comparison), repetition for determinism")
 CLAIMED["C20"] = dict(cat="exploration",
-   text="Untidy-but-valid generated models (dangling call targets, dangling/one-segment/cyclic/recursive type references, empty apps, call cycles, FK cycles, pass-through views) x 21 command/option sets run with the sysl binary built from the working tree; oracle: terminates, no Go runtime crash on stderr, non-zero exit carries a message; crashes keyed by command and first repository frame so known sites do not mask new ones.",
-   note="sysl diagram needs headless Chrome (absent offline) and is not exercised; import/transform commands are covered by C11/C17 at library level",
+   text="Untidy-but-valid generated models (dangling call targets, dangling/one-segment/cyclic/recursive type references, empty apps, call cycles, FK cycles, pass-through views; a third of them the root of a six-file import closure with a diamond, a cycle and a repeated import) x 28 command sets (pb, validate, sd, ints, datamodel, diagram -i/-s/-d, export in every format, generate-db-scripts(-delta), import of generated OpenAPI 2/3, XSD and SQL documents), half of the runs with a global option, run with the sysl binary built from the working tree; oracle: terminates, no Go runtime crash on stderr, non-zero exit carries a message; crashes keyed by command and first repository frame so known sites do not mask new ones.",
+   note="the rendering step of sysl diagram needs headless Chrome (absent offline: a clean error exit); each command runs under an address-space limit; a hang is confirmed once (30 s + 90 s); transform/codegen are covered by C10/C17 at library level",
    technique="property-based CLI matrix (rapid) with crash-signature keyed findings")
 CLAIMED["C10"] = dict(cat="exploration",
-   text="Well-typed view bodies drawn from an explicit table of supported (operator, left kind, right kind) triples, with reuse templates for every purity-sensitive operator (concat, union, where, flatten, nested transforms with shadowing scope variables, helper calls); the rendered view is compiled by the real parser and evaluated by eval.EvaluateView in a worker subprocess (evaluation failures exit the process) and compared with an independent reference interpreter with immutable values and lexical scoping; every let/parameter is re-exported so a changed binding shows; each case is evaluated twice (thorough: also in a fresh worker). Depth<=2 expressions over a 16-value pool are enumerated exhaustively in the thorough tier.",
+   text="Well-typed view bodies drawn from an explicit table of supported (operator, left kind, right kind) triples, with reuse templates for every purity-sensitive operator (concat, union, where, flatten, nested transforms with shadowing scope variables, helper calls incl. self-recursive helper views, optional values with null tests and defaults); the rendered view is compiled by the real parser and evaluated by eval.EvaluateView in a worker subprocess (evaluation failures exit the process) and compared with an independent reference interpreter with immutable values and lexical scoping; every let/parameter is re-exported so a changed binding shows; each case is evaluated twice (thorough: also in a fresh worker). Depth<=2 expressions over a 16-value pool are enumerated exhaustively in the thorough tier.",
    note="trusts the reference interpreter and the triple table copied from the statement's inventory and the dispatch tables' keys; behaviours the language leaves unspecified (bare '. -> (...)', inner let overwriting the flat scope, nested-set order in de-duplication) are kept out of the domain and listed in the rule",
    technique="property-based testing against a reference interpreter (differential), bounded-exhaustive enumeration at depth<=2, purity via re-exported bindings")
 CLAIMED["C18"] = dict(cat="exploration",
-   text="A recording afero.Fs sits under syslutil.ChrootFs; every path of <=5 (quick) / <=7 (thorough, exhaustive across shards) segments over {'', '.', '..', 'a', 'a.b', 'a b'}, relative and absolute, x 4 roots x all 13 operations (both Rename arguments) is decided by a segment-stack reference resolver: outside => error and no call reaches the recorder; inside => exactly the canonical path. Plus rapid-drawn longer paths and import statements compiled through loader's ChrootFs wrapping.",
+   text="A recording afero.Fs sits under syslutil.ChrootFs; every path of <=5 (quick) / <=7 (thorough, exhaustive across shards) segments over {'', '.', '..', 'a', 'a.b', 'a b'}, relative and absolute, x 4 roots x all 13 operations (both Rename arguments) is decided by a segment-stack reference resolver: outside => error and no call reaches the recorder; inside => exactly the canonical path. Plus rapid-drawn longer paths; histories of 2-10 operations on one wrapper instance judged step by step; every string-taking exported method of *ChrootFs found by reflection and afero's helpers (Walk, Glob, ReadDir, ..., ReadOnlyFs/CopyOnWriteFs on top) over a recorder with and without afero.Lstater; and import statements compiled through loader's ChrootFs wrapping.",
    note="trusts the reference resolver (no filepath calls); remote (//host/...) imports do not go through the project filesystem and are out of scope",
    technique="exhaustive enumeration + property-based generation against a reference path resolver with a recording filesystem")
 CLAIMED["C03"] = dict(cat="exploration",
@@ -62,11 +62,11 @@ CLAIMED["C04"] = dict(cat="exploration",
    note="app attributes/long name/mixins stay in the header block (order-sensitive by definition); subscriptions not generated here",
    technique="metamorphic property-based testing over generated partitions and import graphs")
 CLAIMED["C07"] = dict(cat="exploration",
-   text="k specs (always including a mixin chain of >=3 apps whose chain order differs from sorted order) compiled by up to 64 goroutines with rapid-drawn GOMAXPROCS and spin offsets, every result byte-compared (text and JSON) with a sequential baseline that is itself repeated 20 times and in fresh processes; the check runs under the race detector (race build) where a report is a violation; a soak sub-property runs thousands of concurrent compilations in a process of its own with a memory bound (regression check for the repaired lexer-state leak).",
+   text="k specs (always including a mixin chain of >=3 apps whose chain order differs from sorted order; also rejected specifications, multi-file modules with varied file endings) compiled by up to 64 goroutines with rapid-drawn GOMAXPROCS and spin offsets, every result byte-compared (text and JSON) with a sequential baseline that is itself repeated 20 times and in fresh processes, followed by reject -> garbage collection -> accept rounds and module -> other-spec pairs; the check runs under the race detector (race build) where a report is a violation; a soak sub-property runs thousands of concurrent compilations in a process of its own with a memory bound (regression check for the repaired lexer-state leak).",
    note="the harness does not own interleavings inside ANTLR: exploration with a dynamic race oracle, not enumeration; a time-out is inconclusive",
    technique="property-based concurrency testing: differential against sequential baseline + Go race detector + memory-bound soak")
 CLAIMED["C08"] = dict(cat="exploration",
-   text="A recording renderer writes generated single- and multi-file specs (re-opened apps and types, REST verbs incl. PATCH at depth 0-2, tabs, noise lines) and remembers file/line/rune-column of every element; the compiled model must carry, per element kind, one location per declaration in walk order with exactly the recorded start, end >= start, start inside the file on a non-blank character, and the deprecated single location equal to the last list entry.",
+   text="A recording renderer writes generated single- and multi-file specs (re-opened apps and types, REST verbs incl. PATCH at depth 0-2, tabs, noise lines) and remembers file/line/rune-column of every element; the compiled model must carry, per element kind, one location per declaration in walk order with exactly the recorded start, end >= start, start inside the file on a non-blank character, and the deprecated single location equal to one of the list entries.",
    note="element kinds that carry no location are listed in the rule; tab = one column",
    technique="property-based testing with an intent oracle for positions (recording renderer)")
 CLAIMED["C09"] = dict(cat="exploration",
